@@ -135,7 +135,12 @@ impl<T: AsRef<[u8]>> Packet<T> {
         // > An all zero transmitted checksum value means that the transmitter
         // > generated no checksum (for debugging or for higher level protocols
         // > that don't care).
+        // (UDP over IPv4 only: with IPv6 the checksum is mandatory, RFC 8200 section 8.1.)
         if self.checksum() == 0 {
+            #[cfg(feature = "proto-ipv6")]
+            if matches!(src_addr, IpAddress::Ipv6(_)) {
+                return false;
+            }
             return true;
         }
 
